@@ -156,7 +156,7 @@ var hlslKnownDefects = map[string]map[string]string{
 	// Not a defect: ZeroInitializeWorkgroupMemory=false intentionally drops WGSL's zero
 	// initialisation; the read of uninitialised groupshared memory is reported as poison.
 	"workgroup variables are zero initialised and per workgroup": {"sm62-fake-loopbound-nozero": "read of a groupshared variable that was never written"},
-	"atomics signed and sub": {"sm62-fake-loopbound-nozero": "read of a groupshared variable that was never written"},
+	"atomics signed and sub":                                     {"sm62-fake-loopbound-nozero": "read of a groupshared variable that was never written"},
 }
 
 // hlslSlotFor maps a WGSL resource to the register the HLSL text must use.
